@@ -30,7 +30,7 @@ for f in ("LayoutWord", "LayoutDoubleWord"):
     GROUPS.append(G("int_" + f, "harness/C09/h_intpseudo.c", "h_" + f, enforce=[], dfcc=False, drop_unused=True, link=[], stubs=["stubs/gerr.c"], unwind=6, timeout=600,
                     object_bits=12, defs=["-DSTRINGSIZE=64"], functions=[f], bounded="string arguments of 1..3 characters (character loop unwound); integer arguments unbounded"))
 GROUPS.append(G("int_DUP_count", "harness/C09/h_intpseudo.c", "h_DUP_count", enforce=[], dfcc=False, drop_unused=True, link=["strcomp.c"], stubs=["stubs/gerr.c"], unwind=12, timeout=600,
-                object_bits=12, defs=["-DSTRINGSIZE=64"], functions=["DecodeIntelPseudo_LayoutMult"], tier="off", note="not decided: symbolic execution of the argument splitter exceeds the 600 s budget; kept for --only runs", bounded="argument text '3 DUP(x)' with the count value an oracle in [-2^31, 6] (replication loop unwound)"))
+                object_bits=12, defs=["-DSTRINGSIZE=32"], cflags=["-include", "$VERIF/include/verif_ascii_ctype.h"], functions=["DecodeIntelPseudo_LayoutMult"], bounded="argument text '3 DUP(x)' with the count value an oracle in [-2^31, 6] (replication loop unwound)"))
 TRUSTED_BASE = ["CBMC's IEEE-754 conversion semantics for (float)x and (_Float16)x (round to nearest even) as specification oracle"]
 ASSUMPTIONS = ["host is little-endian IEEE (as built)"]
 NOT_COVERED = ["DecodeMotoDC statement loop (harness exists, exceeds solver budget; its helpers Enter* and the converters are under contract)", "vaxfloat.c", "ibmfloat.c", "ConvertMotoFloatDec", "tipseudo.c", "natpseudo.c", "fourpseudo.c"]
